@@ -318,6 +318,15 @@ class Models:
                 I.raise_py(StopIteration)
             g.pos += 1
             return I.list_nth(lst, z3.IntVal(g.pos - 1))
+        if isinstance(g, VList):
+            # the result of a generator under contract (eager model): next() of a fresh generator is its first element
+            if getattr(g, 'next_pos', 0) != 0:
+                raise OutOfSubset('second next() on a generator result')
+            if not I.ctx.branch(g.length() > 0):
+                if len(a) > 1: return a[1]
+                I.raise_py(StopIteration)
+            g.next_pos = 1
+            return I.list_nth(g, z3.IntVal(0))
         raise OutOfSubset('next(%r)' % (g,))
 
     def m_zip(self, I, a, k):
@@ -929,6 +938,8 @@ class Models:
         raise OutOfSubset('bit operation')
 
     def binop(self, I, op, a, b):
+        if (isinstance(a, VNone) and isinstance(b, (VInt, VStr, VBytes, VNone))) or (isinstance(b, VNone) and isinstance(a, (VInt, VStr, VBytes))):
+            I.raise_py(TypeError)            # None + 1, 'x' + None ...: unsupported operand types
         raise OutOfSubset('binary op %s on %r, %r' % (op.__class__.__name__, a, b))
 
     def equal(self, I, a, b):
